@@ -3,7 +3,7 @@
 cd /verif
 for P in ${PATCHES:-/verif/refactors/*/patch.diff}; do
   [ -f "$P" ] || continue
-  WT=/tmp/vt
+  WT=${WT:-/tmp/vt}
   git -C $WT checkout -q --detach $(git -C /repo rev-parse HEAD) 2>/dev/null; git -C $WT checkout -q -- . ; git -C $WT clean -qfd
   git -C $WT apply "$P" 2>/dev/null || { echo "$P: does not apply"; continue; }
   echo "### $P"
@@ -12,4 +12,4 @@ for P in ${PATCHES:-/verif/refactors/*/patch.diff}; do
     if [ $rc -ne 0 ]; then echo "$out" | grep -v "^KNOWN-FINDING" | grep -E "^  C[0-9]+\.R|ANALYSIS" | cut -c1-${CUT:-170}; fi
   done
 done
-git -C /tmp/vt checkout -q -- . ; git -C /tmp/vt clean -qfd
+git -C ${WT:-/tmp/vt} checkout -q -- . ; git -C ${WT:-/tmp/vt} clean -qfd
